@@ -104,7 +104,7 @@ def gen_case(rng, tier, idx):
     evs = ["EvShock", "EvMistake", "EvLimit", "EvHalt"] if all_events else rng.sample(["EvShock", "EvMistake", "EvLimit", "EvHalt"], 2)
     s0 = {"sessionName": 0, "iterationSteps": rng.choice([5, 15]), "withOrderPlacement": True, "withOrderExecution": False,
           "withPrint": True, "maxNormalOrders": n_spot + 1, "maxHighFrequencyOrders": 0}
-    s1 = {"sessionName": 1, "iterationSteps": rng.choice([30, 60, 90]), "withOrderPlacement": True,
+    s1 = {"sessionName": 1, "iterationSteps": rng.choice([30, 60, 90, 110]), "withOrderPlacement": True,
           "withOrderExecution": True, "withPrint": True, "maxNormalOrders": rng.choice([3, 6]),
           "maxHighFrequencyOrders": rng.choice([1, 3]), "highFrequencySubmitRate": rng.choice([0.5, 1.0]),
           "events": evs}
